@@ -29,6 +29,8 @@ pub enum Case {
     Reconf(Vec<ROp>),
     /// merged breadth-first layer over session operations (bound of the state constraint)
     SessionsReach(Vec<SOp>, i64),
+    /// merged breadth-first layer over setter calls: the probe texts are evaluated after every call
+    ConfigReach(Vec<ROp>),
     /// one session: 'x = <literal>' ; a setter call on the calculator ; 'x' and 'x + x' on the same
     /// session: the binding still holds the same value
     SessionReconf { bind: String, setter: ROp, doubles: bool },
@@ -289,7 +291,22 @@ impl Prop for C04 {
         let ops = session_ops();
         let n = ops.len();
         let (bound, depth) = tier.pick((6i64, 4usize), (8, 7));
-        vec![Bfs::new(
+        let setters: Vec<ROp> = {
+            let mut v = vec![ROp::Dec(",".into()), ROp::Dec(".".into()), ROp::Thou(".".into()), ROp::Thou(",".into()), ROp::Thou("".into()), ROp::Tz("UTC".into()), ROp::Tz("EST".into())];
+            if tier == Tier::Thorough {
+                v.extend([ROp::Dec(";".into()), ROp::Thou("'".into()), ROp::Tz("CET".into()), ROp::Num(2, true, true), ROp::Num(0, true, true), ROp::Num(4, false, false), ROp::Rate("try".into(), "2".into()), ROp::Rate("try".into(), "0.5".into())]);
+            }
+            v
+        };
+        let ns = setters.len();
+        let config_layer = Bfs::new(
+            "reachable-configurations",
+            &format!("explicit-state search over {} setter calls (set_decimal_seperator, set_thousand_separator, set_timezone; thorough also set_number_configuration and update_currency) from the default calculator; a state is the configuration in force; on every edge the shortest setter sequence to the source state is replayed on a fresh calculator with the 6-text probe set evaluated after every call, the setter is applied and the probe set evaluated again: every observation must equal that of a fresh calculator that was given the configuration in force directly; no state constraint (the value sets are finite)", ns),
+            ns,
+            tier.pick(12, 24),
+            move |h| Case::ConfigReach(h.iter().map(|i| setters[*i].clone()).collect()),
+        );
+        vec![config_layer, Bfs::new(
             "reachable-session-states",
             &format!("explicit-state search over the {} session operations (S1/S2: set_text(t); execute_session for 10 texts, plain execute for 3 texts, S1/S2: execute_session again) on one calculator; a state is the pair of model environments (values of a and b per session), the text each session holds, and the fingerprint of what 'a' and 'b' evaluate to in each session at the end; state constraint: every known value within +-{}; every edge replays the shortest history to its source state on two new sessions, applies the operation and runs the full oracle (model per session, isolation replay, plain evaluations against a fresh calculator); depth bound {}", n, bound, depth),
             n,
@@ -326,6 +343,43 @@ impl Prop for C04 {
             }
             Case::Sessions(ops) => exec_sessions(ctx, ops, None),
             Case::SessionsReach(ops, bound) => exec_sessions(ctx, ops, Some(*bound)),
+            Case::ConfigReach(setters) => {
+                // after every setter call the whole probe set is evaluated (so that anything an
+                // evaluation leaves behind is in place when the next setter is called)
+                let probes = ["1.250 + 1", "1,250 * 2", "2,5 usd to try", "x = 1.5 km\nx to m", "11:30 to EST", "[NUMBER:1234567.891]"];
+                let mut ops: Vec<ROp> = probes.iter().map(|p| ROp::Eval(p.to_string())).collect();
+                for st in setters {
+                    ops.push(st.clone());
+                    ops.extend(probes.iter().map(|p| ROp::Eval(p.to_string())));
+                }
+                let mut v = exec_reconf(ctx, &ops);
+                v.input = format!("setters {:?}, probe set after each", setters);
+                if v.violation.is_none() {
+                    // canonical state: the configuration in force (the observations equal those of a
+                    // fresh calculator with that configuration, so they add nothing to the key)
+                    let mut model = Cfg::default();
+                    for st in setters {
+                        match st {
+                            ROp::Seps(d, t) => {
+                                model.dec = Some(d.clone());
+                                model.thou = Some(t.clone());
+                            }
+                            ROp::Dec(d) => model.dec = Some(d.clone()),
+                            ROp::Thou(t) => model.thou = Some(t.clone()),
+                            ROp::Num(d, rm, rd) => model.num = Some((*d, *rm, *rd)),
+                            ROp::Tz(z) => model.tz = Some(z.clone()),
+                            ROp::Rate(n, r) => {
+                                model.rates.retain(|x| !x.starts_with(&format!("{}=", n)));
+                                model.rates.push(format!("{}={}", n, r));
+                                model.rates.sort();
+                            }
+                            ROp::Eval(_) => {}
+                        }
+                    }
+                    v.key = Some(serde_json::to_string(&model).unwrap());
+                }
+                v
+            }
             Case::Reconf(ops) => exec_reconf(ctx, ops),
             Case::SessionReconf { bind, setter, doubles } => exec_session_reconf(ctx, bind, setter, *doubles),
         }
